@@ -47,7 +47,7 @@ type c03Case struct {
 	Msgs     []c03Msg `json:"msgs"`
 }
 
-var c03Muts = []string{"none", "none", "none", "none", "flip-body", "flip-sig", "flip-addr", "other-prefix", "no-prefix", "raw-digest", "short-sig", "long-sig", "recid", "empty-sig", "empty-addr", "addr-19", "garbage-body", "empty-body", "nil-body"}
+var c03Muts = []string{"none", "none", "none", "none", "flip-body", "flip-sig", "flip-addr", "other-prefix", "no-prefix", "raw-digest", "short-sig", "long-sig", "recid", "empty-sig", "empty-addr", "addr-19", "garbage-body", "empty-body", "nil-body", "recid-alias"}
 
 // body builds a decodable protobuf body of (about) the requested length.
 func (m c03Msg) body() []byte {
@@ -144,6 +144,10 @@ func (m c03Msg) build() built {
 		b.sig = append(b.sig, 0)
 	case "recid":
 		b.sig[64] = byte(4 + m.X%252)
+	case "recid-alias": // the valid signature with its recovery id written the EVM way (27/28) or the EIP-155 way
+		if len(b.sig) == 65 {
+			b.sig[64] += []byte{27, 27, 35, 37}[m.X%4]
+		}
 	case "empty-sig":
 		b.sig = nil
 	case "empty-addr":
